@@ -90,6 +90,7 @@ class C05(PoolScenario):
     budgets = {"quick": 10000, "thorough": 200000}
     wall_caps = {"quick": 110, "thorough": 1500}
     ops = {"new": 1, "fill": 10, "fillnumpy": 6, "add": 3, "iadd": 2, "mul": 2, "copy": 1, "zero": 0.5, "ship": 2}
+    odd_row_weights = 0.08
     rule = ("one run = one operation history over a pool of aggregators owned by three tasks (fill, fill.numpy with "
             "seeded batches / weight forms / containers, +, +=, *, copy, JSON / file / pickle round trips), in the "
             "dyadic or the awkward configuration regime (0.1, 1/3, 1e6 offsets; probes 1-3 ulps around every edge). "
@@ -174,7 +175,7 @@ class C05(PoolScenario):
             if st["weights"] == "one":
                 tot = float(n)
             elif st["weights"] == "array":
-                tot = float(sum(st["row_weights"]))
+                tot = float(sum(x for x in (float(v) for v in st["row_weights"]) if x > 0))  # weights <= 0 and NaN are ignored, as in fill
             else:
                 tot = float(st["weights"]) * n
             m[st["obj"]]["shadow"] = m[st["obj"]].get("shadow", 0.0) + tot
